@@ -77,6 +77,16 @@ def handleReportRun : Toks → Option String :=
       | l => l)
     pure s!"LT {showList showLtRec lt} ; JU {ju} ; JS {showList showJFeat js} ; BA {showList showBLine ba}") ts
 
+/-- `report.json …`: the Cucumber JSON document alone (features that share a NAME are told apart by their path, which
+    only this document states) -/
+def handleReportJson : Toks → Option String :=
+  fun ts => runAll (do
+    let nopath ← list nat
+    let _alias ← list (do let a ← nat; let b ← nat; pure (a, b))
+    let evs ← list evP
+    let hasPath : Nat → Bool := fun f => !nopath.contains f
+    pure s!"JS {showList showJFeat (jsonRun hasPath evs)}") ts
+
 /-! wire parsers of the parsed-back records (inverse of the printers above) -/
 
 def ltStepP : P LtStep := do
